@@ -166,6 +166,8 @@ type c09Hist struct {
 	log    []string
 	failed bool
 	junk       int
+	mayRefuse  bool // the next put may be refused by the cache (boundary sizes)
+	refused    bool
 	crashDirty bool   // scratch crash directory must be rebuilt from nothing
 	crashPrev  string // file that carried the previous fault
 	puts, erases, restarts, tailReads, rotations int
@@ -252,6 +254,10 @@ func (h *c09Hist) payload(n int) []byte {
 func (h *c09Hist) put(sh int, data []byte, sec uint32) *c09Rec {
 	s := h.sh[sh]
 	id, err := h.d.PutBucket(sh, sec, data)
+	if err != nil && h.mayRefuse {
+		h.refused = true // a put the cache is entitled to refuse (size limit): it must leave no trace, checked by the caller
+		return nil
+	}
 	if err != nil || id == 0 {
 		h.bad("put/error", fmt.Sprintf("PutBucket failed: %v", err), map[string]any{"shard": sh})
 		return nil
@@ -899,10 +905,133 @@ func c09RunHistory(r *verifkit.Run, w *verifkit.Worker, idx int, scratch string,
 	h.d.Close()
 }
 
+// c09BoundarySizes: payload sizes at and around every size limit of the cache (largest chunk the reader accepts,
+// file rotation size), in terms of the package constants.
+func c09BoundarySizes() []int {
+	return []int{maxChunkSize, maxChunkSize + 1, fileRotateSize - 1, fileRotateSize, fileRotateSize + 1, maxChunkSize - 1, fileRotateSize + headerSize, fileRotateSize - headerSize/2}
+}
+
+// One boundary case: small record, the giant, small record, restart, read everything back, erase everything.
+// The cache may refuse the giant; then it must leave no trace.  If PutBucket succeeds the record must be
+// returned byte-identical by GetBucket in the same run and by the tail reader after the restart.
+func c09RunBoundary(r *verifkit.Run, w *verifkit.Worker, idx int, scratch string, size int) {
+	h := &c09Hist{r: r, w: w, idx: idx, nsh: 1}
+	h.dir = filepath.Join(scratch, "boundary")
+	_ = os.RemoveAll(h.dir)
+	defer os.RemoveAll(h.dir)
+	if err := os.MkdirAll(h.dir, 0o755); err != nil {
+		r.Inconclusive("mkdir: " + err.Error())
+		return
+	}
+	h.sh = []*c09Shard{{byID: map[int64]*c09Rec{}}}
+	if !h.open() {
+		return
+	}
+	defer func() {
+		if h.d != nil {
+			h.d.Close()
+		}
+	}()
+	h.logf("boundary case: payload %d bytes (maxChunkSize %+d, fileRotateSize %+d)", size, size-maxChunkSize, size-fileRotateSize)
+	if w.Rnd.IntN(2) == 0 { // the giant is either the first record of its file or forces a rotation
+		if rec := h.put(0, h.payload(10+w.Rnd.IntN(100)), 1_700_000_001); rec != nil {
+			h.logf("put uid=%d len=%d", rec.uid, len(rec.data))
+		}
+	}
+	h.uid++
+	giant := make([]byte, size)
+	copy(giant, fmt.Sprintf("uid:%d:", h.uid))
+	for i := 16; i < len(giant); i++ {
+		giant[i] = byte(i*31 + i>>11 + h.uid)
+	}
+	h.mayRefuse = true
+	rec := h.put(0, giant, 1_700_000_002)
+	h.mayRefuse = false
+	switch {
+	case h.failed:
+		return
+	case h.refused:
+		h.logf("giant refused")
+		w.Count("boundary.put_refused", 1)
+	case rec != nil:
+		h.logf("giant accepted id=%d", rec.id)
+		w.Count("boundary.put_accepted", 1)
+		var scratchPad []byte
+		got, err := h.d.GetBucket(0, rec.id, rec.sec, &scratchPad)
+		if err != nil {
+			h.bad("get/error", "boundary-size record cannot be read in the same run: "+err.Error(), map[string]any{"size": size})
+		} else if !bytes.Equal(got, giant) {
+			h.bad("get/bytes-differ", "boundary-size record read back with other bytes in the same run", map[string]any{"size": size})
+		}
+	}
+	// accepted or refused: sizes and directory must agree with the model (refused = no trace)
+	h.checkSizes(0, "after boundary-size put")
+	h.checkDisk(0, "after boundary-size put")
+	if rec2 := h.put(0, h.payload(10+w.Rnd.IntN(100)), 1_700_000_003); rec2 != nil {
+		h.logf("put uid=%d len=%d", rec2.uid, len(rec2.data))
+	}
+	h.checkSizes(0, "after the put that follows the boundary-size put")
+	h.checkDisk(0, "after the put that follows the boundary-size put")
+	if h.failed {
+		return
+	}
+	// restart and read everything back through the tail reader
+	if err := h.d.Close(); err != nil {
+		h.bad("close/error", err.Error(), nil)
+	}
+	h.d = nil
+	h.sh[0].restart()
+	h.logf("restart")
+	if !h.open() {
+		return
+	}
+	h.checkSizes(0, "right after reopen")
+	for i := 0; i < 8 && !h.failed; i++ {
+		want := h.sh[0].nextTail()
+		sec, id := h.d.ReadNextTailBucket(0)
+		if want == nil {
+			if id != 0 {
+				h.bad("tail/extra", fmt.Sprintf("tail reader returned second %d although nothing unread is left", sec), map[string]any{"size": size})
+			}
+			break
+		}
+		if id == 0 {
+			h.bad("tail/ended-early", fmt.Sprintf("after a restart the tail reader ended, uid %d (second %d, %d bytes) was put successfully, never erased and is not returned", want.uid, want.sec, len(want.data)), map[string]any{"size": size})
+			break
+		}
+		if sec != want.sec {
+			h.bad("tail/order", fmt.Sprintf("tail reader returned second %d, next in write order is uid %d second %d (%d bytes)", sec, want.uid, want.sec, len(want.data)), map[string]any{"size": size})
+			break
+		}
+		want.id = id
+		h.sh[0].byID[id] = want
+		want.file.known++
+		var scratchPad []byte
+		got, err := h.d.GetBucket(0, id, sec, &scratchPad)
+		if err != nil {
+			h.bad("get/error", fmt.Sprintf("uid %d (%d bytes) cannot be read after the restart: %v", want.uid, len(want.data), err), map[string]any{"size": size})
+		} else if !bytes.Equal(got, want.data) {
+			h.bad("get/bytes-differ", fmt.Sprintf("uid %d (%d bytes) read back with other bytes after the restart", want.uid, len(want.data)), map[string]any{"size": size})
+		}
+	}
+	if h.failed {
+		return
+	}
+	h.checkSizes(0, "after reading everything back")
+	h.checkDisk(0, "after reading everything back")
+	for len(h.sh[0].byID) != 0 && !h.failed {
+		h.erase(0, h.anyKnown(0))
+	}
+	h.checkSizes(0, "after erasing everything")
+	h.checkDisk(0, "after erasing everything")
+	w.Case(true, fmt.Sprintf("boundary/%d/%v", size, h.refused))
+	w.Count("boundary.cases", 1)
+}
+
 func TestVerifC09(t *testing.T) {
 	r := verifkit.Start(t, "C09", "agent")
 	defer r.Finish()
-	r.SetRule("crash-free case = one history of 5-95 operations (put 35%, erase 15%, get 10%, tail read 15%, size+directory check 10%, restart 15%) over 1-4 shards, non-trivial if it has a restart, an erase and >= 5 puts. Crash case = (history, fault, cut): the end state of a history with the last write torn after k bytes - final erase k=0..4, final put k=0..20+len (quick: every header byte + 24 sampled body offsets + complete), one flipped body byte - reopened and read back; non-trivial if a shard must return >= 2 records. distinct = distinct (history, fault, cut).")
+	r.SetRule("crash-free case = one history of 5-95 operations (put 35%, erase 15%, get 10%, tail read 15%, size+directory check 10%, restart 15%) over 1-4 shards, non-trivial if it has a restart, an erase and >= 5 puts. Crash case = (history, fault, cut): the end state of a history with the last write torn after k bytes - final erase k=0..4, final put k=0..20+len (quick: every header byte + 24 sampled body offsets + complete), one flipped body byte - reopened and read back; non-trivial if a shard must return >= 2 records. Boundary case = one payload size at/around a size limit of the cache (maxChunkSize-1..+1, fileRotateSize-10..+20): put (may be refused, then no trace), get, put, restart, full read back, erase all. distinct = distinct (history, fault, cut).")
 	r.Assume("a torn write is modelled as a prefix of the bytes of one WriteAt sequence (header then body; the 4 magic bytes of an erase) reaching the file; everything written earlier is on disk")
 	nHist := r.N(300, 3000)
 	workers := 8
@@ -914,6 +1043,10 @@ func TestVerifC09(t *testing.T) {
 		scratch := r.MkTmp(fmt.Sprintf("c09-w%d-", w.Index))
 		defer os.RemoveAll(scratch)
 		seen[w.Index] = map[string]struct{}{}
+		// boundary-size class: one giant per worker (quick: 8 sizes once, thorough: each twice); no cut enumeration for them
+		if bs := c09BoundarySizes(); true {
+			c09RunBoundary(r, w, -1-w.Index, scratch, bs[w.Index%len(bs)])
+		}
 		for i := 0; i < nHist/workers; i++ {
 			big := r.Thorough() && w.Index < 4 && i == 7
 			c09RunHistory(r, w, w.Index*1000000+i, scratch, seen[w.Index], big)
